@@ -572,6 +572,10 @@ impl World {
 
     pub(crate) fn record(&self, actor: ActorId, seq: u64, kind: CallKind, path: &str, d: Decision, ok: bool) {
         let mut g = self.lock();
+        if seq == 0 {
+            // call of a party that is already dead: not an injected fault, not logged
+            return;
+        }
         if d != Decision::Proceed {
             *g.stats.faults.entry(d.short().to_string()).or_insert(0) += 1;
         }
